@@ -1,0 +1,119 @@
+//go:build verif
+
+package tls
+
+import "sync"
+
+// VerifOverride lets the verification harness make the in-tree test server
+// behave in ways a compliant server would not. Only compiled with -tags verif.
+type VerifOverride struct {
+	Outgoing          func(c *Conn, data []byte) []byte // rewrite an outgoing handshake message before transcript+write
+	ForceSuite13      uint16
+	ForceGroup        CurveID
+	ForceALPN         *string
+	HRRCookie         []byte
+	LegacyVersionOnly bool
+	Canary            int  // 1 = suppress, 2 = force
+	ReadClientEE      bool // read a client EncryptedExtensions before the client's Finished
+	ClientEE          []byte
+	Emit              func(ev string, data []byte)
+}
+
+var verifOverrides sync.Map
+
+func VerifSetOverride(cfg *Config, o *VerifOverride) { verifOverrides.Store(cfg, o) }
+
+func verifOv(c *Conn) *VerifOverride {
+	if c == nil || c.config == nil {
+		return nil
+	}
+	if v, ok := verifOverrides.Load(c.config); ok {
+		return v.(*VerifOverride)
+	}
+	return nil
+}
+
+func verifOutgoing(c *Conn, data []byte) []byte {
+	if o := verifOv(c); o != nil && o.Outgoing != nil {
+		return o.Outgoing(c, data)
+	}
+	return data
+}
+
+func verifSuite13(hs *serverHandshakeStateTLS13) {
+	if o := verifOv(hs.c); o != nil && o.ForceSuite13 != 0 {
+		if s := cipherSuiteTLS13ByID(o.ForceSuite13); s != nil {
+			hs.suite = s
+			hs.c.cipherSuite = s.id
+			hs.hello.cipherSuite = s.id
+			hs.transcript = s.hash.New()
+		}
+	}
+}
+
+func verifGroup13(hs *serverHandshakeStateTLS13, g CurveID) CurveID {
+	if o := verifOv(hs.c); o != nil && o.ForceGroup != 0 {
+		return o.ForceGroup
+	}
+	return g
+}
+
+func verifALPN(c *Conn, p string) string {
+	if o := verifOv(c); o != nil && o.ForceALPN != nil {
+		return *o.ForceALPN
+	}
+	return p
+}
+
+func verifHRR(hs *serverHandshakeStateTLS13, hrr *serverHelloMsg) {
+	if o := verifOv(hs.c); o != nil && len(o.HRRCookie) > 0 {
+		hrr.cookie = o.HRRCookie
+		hs.clientHello.cookie = o.HRRCookie // so that the echoed cookie is not an "illegal change"
+	}
+}
+
+func verifServerVersions(c *Conn, ch *clientHelloMsg, v []uint16) []uint16 {
+	if o := verifOv(c); o != nil && o.LegacyVersionOnly {
+		return supportedVersionsFromMax(ch.vers)
+	}
+	return v
+}
+
+func verifCanary(hs *serverHandshakeState) {
+	o := verifOv(hs.c)
+	if o == nil {
+		return
+	}
+	switch o.Canary {
+	case 1:
+		copy(hs.hello.random[24:], []byte{1, 2, 3, 4, 5, 6, 7, 8})
+	case 2:
+		if hs.c.vers == VersionTLS12 {
+			copy(hs.hello.random[24:], downgradeCanaryTLS12)
+		} else {
+			copy(hs.hello.random[24:], downgradeCanaryTLS11)
+		}
+	}
+}
+
+func verifPreClientFlight(hs *serverHandshakeStateTLS13) error {
+	o := verifOv(hs.c)
+	if o == nil || !o.ReadClientEE {
+		return nil
+	}
+	msg, err := hs.c.readHandshake(hs.transcript)
+	if err != nil {
+		return err
+	}
+	if ee, ok := msg.(*utlsClientEncryptedExtensionsMsg); ok {
+		o.ClientEE = append([]byte{}, ee.raw...)
+		return nil
+	}
+	return unexpectedMessageError(&utlsClientEncryptedExtensionsMsg{}, msg)
+}
+
+func verifEmit(c *Conn, ev string, data []byte) {
+	if o := verifOv(c); o != nil && o.Emit != nil {
+		o.Emit(ev, data)
+	}
+}
